@@ -62,6 +62,14 @@ func loopConfigs(thorough bool, faults bool) []*loop.Config {
 			}
 		}
 	}
+	{
+		// a head limit, and targets of which metric relabeling keeps only a part (total > kept): a duplicate and a
+		// pending transfer as initial placements
+		o := loop.Opt{MaxHead: 100, MaxProc: 100, MaxShard: 4, MinShard: 0, IdleSec: 0}
+		fat := []loop.T{tg(1, 10, 40, true), tg(2, 20, 50, true)}
+		add(true, "duplicate/head=100,total>kept", o, fat, []loop.Seed{{1: "", 2: ""}, {1: ""}})
+		add(false, "pending-transfer/head=100,total>kept", o, fat, []loop.Seed{{1: "in_transfer", 2: ""}, {1: ""}})
+	}
 	if thorough {
 		// a budget of two on the small configurations
 		o := loop.Opt{MaxHead: 0, MaxProc: 100, MaxShard: 4, MinShard: 0, IdleSec: 0}
